@@ -241,7 +241,7 @@ func runC13(c *core.Ctx) {
 		m := gen.TWCCModelGen(r, gen.Opts{})
 		want := modelProjection(m)
 		for k := 0; k < 6; k++ {
-			chunks := m.Chunks(r, gen.ChunkOpts{OvershootRun: true})
+			chunks := m.Chunks(r, gen.ChunkOpts{OvershootRun: true, ZeroRuns: r.Chance(1, 3)})
 			v := m.Value(chunks)
 			e, err := ref.Encode(v, ref.RFC)
 			if err != nil {
@@ -340,7 +340,7 @@ func runC13(c *core.Ctx) {
 		}
 		want := modelProjection(m)
 		for k := 0; k < 3; k++ {
-			chunks := m.Chunks(r, gen.ChunkOpts{OvershootRun: true})
+			chunks := m.Chunks(r, gen.ChunkOpts{OvershootRun: true, ZeroRuns: r.Chance(1, 3)})
 			v := m.Value(chunks)
 			e, err := ref.Encode(v, ref.RFC)
 			if err != nil || len(e.B) >= 65536 {
@@ -413,7 +413,7 @@ func runC13(c *core.Ctx) {
 	c.Section("mutants", c.N(500000, 90000000), func(cs *core.Case) {
 		r := cs.R
 		m := gen.TWCCModelGen(r, gen.Opts{NoBig: !r.Chance(1, 50)})
-		v := m.Value(m.Chunks(r, gen.ChunkOpts{OvershootRun: true}))
+		v := m.Value(m.Chunks(r, gen.ChunkOpts{OvershootRun: true, ZeroRuns: r.Chance(1, 3)}))
 		e, err := ref.Encode(v, ref.RFC)
 		if err != nil {
 			return
